@@ -313,7 +313,18 @@ func (a *Agent) SetTags(tags map[string]string) error {
 	}
 
 	// Set the tags in Serf, start gossiping out
-	return a.serf.SetTags(tags)
+	if err := a.serf.SetTags(tags); err != nil {
+		// The update may have been rejected (for example because the encoded
+		// tags are too large). Make sure the tags file holds the tags that
+		// are actually in effect, or the next start would load the others.
+		if a.agentConf.TagsFile != "" {
+			if werr := a.writeTagsFile(a.conf.Tags); werr != nil {
+				a.logger.Printf("[ERR] agent: %s", werr)
+			}
+		}
+		return err
+	}
+	return nil
 }
 
 // loadTagsFile will load agent tags out of a file and set them in the
